@@ -340,7 +340,16 @@ def g_dependencies(R, tier):
             R.undecided(f"composition/depends-on/{d}", "suite not built")
 
 
-GROUPS = {"wrappers": g_wrappers, "selector": g_selector, "module": g_module, "module_traversal": None, "simple_statements": g_simple_statements,
+def g_witness(R, tier):
+    """see c06.native_finding"""
+    from suites import c06
+    c06.native_finding(R, "utils.list_wrapper/W1-objects-are-released-when-their-last-name-is-rebound",
+                       "with expr_wrapper=list the value of every statement is an element of a list display that lives until the block ends: an object "
+                       "whose last name is rebound is released later than in Python, so __del__ / weakref callbacks that print run after later output",
+                       "class K:\n    def __del__(self):\n        print('released')\nx = K()\nx = None\nprint('after')\n")
+
+
+GROUPS = {"witness": g_witness, "wrappers": g_wrappers, "selector": g_selector, "module": g_module, "module_traversal": None, "simple_statements": g_simple_statements,
           "expr": c07.g_expr, "if": c07.g_if, "convert_step": g_convert_step, "dependencies": g_dependencies, "canary": c13.g_canary}
 
 
